@@ -250,13 +250,17 @@ impl<'t, 'c> Gen<'t, 'c> {
             }
             6 => {
                 // division by a power of two (exact) or, rarely, by a variable / zero
-                let a = self.num_expr(want, depth - 1);
+                let mut a = self.num_expr(want, depth - 1);
+                if want == Ty::Double && self.t.chance(1, 5) {
+                    // a tiny exact quotient (1 / 16384 prints exactly as a DOUBLE)
+                    a = Expr::Lit(Lit::WholeDouble(*self.t.pick(&[1, 3, 16385])));
+                }
                 let d = if self.cfg.errors && self.t.chance(1, 25) {
                     Expr::Lit(Lit::Whole(0))
                 } else if self.t.chance(1, 8) {
                     Expr::Load(self.readable_num(Ty::Int))
                 } else {
-                    Expr::Lit(Lit::Whole(*self.t.pick(&[2, 1, 4, 8])))
+                    Expr::Lit(Lit::Whole(*self.t.pick(&[2, 1, 4, 8, 2, 4, 1024, 16384])))
                 };
                 Expr::Bin(BinOp::Div, Box::new(self.paren_if_binary(a)), Box::new(d))
             }
